@@ -397,11 +397,12 @@ theorem disc_rm_body (op : Op) (t : Ref) (kn : Know) (vr : Variant) (c : Cache) 
             if ok then removePacked t c kl (fun c => sRemoveL t fun _ => Prog.ret (.bool true) c)
             else sRemoveL t fun _ => k0 c
           else removePacked t c kl (fun c => sRemoveL t fun _ => Prog.ret (.bool true) c))
-      else removePacked t c kl fun c =>
+      else
         (sLstatR t fun found =>
-          if found then sRemoveR t fun ok =>
-            if ok then (sRemoveL t fun _ => Prog.ret (.bool true) c) else sRemoveL t fun _ => k0 c
-          else (sRemoveL t fun _ => Prog.ret (.bool true) c))) := by
+          removePacked t c kl fun c =>
+            if found then sRemoveR t fun ok =>
+              if ok then (sRemoveL t fun _ => Prog.ret (.bool true) c) else sRemoveL t fun _ => k0 c
+            else (sRemoveL t fun _ => Prog.ret (.bool true) c))) := by
   have tail : ∀ (c : Cache) (kk ke : Prog), CacheOK c →
       Disc op t (.lockedDone (.bool true)) kk →
       (∀ kn', (∀ x, kn'.cons x → x = none ∧ kn.cons x) → Disc op t (.locked kn') kk) →
@@ -459,9 +460,38 @@ theorem disc_rm_body (op : Op) (t : Ref) (kn : Know) (vr : Variant) (c : Cache) 
     · exact disc_removePacked hc fun c' hc' => finDone c' hc'
     · intro kn' h
       exact disc_removePacked hc fun c' hc' => finNone c' kn' hc' h
-  · simp only [hv, if_false]
+  · simp only [hv, if_false, sLstatR]
+    refine disc_call.mpr ⟨by simp [Pre], fun res x hx => ?_⟩
+    obtain ⟨hcons, _, hres⟩ := hx
+    have hres : res = x.isSome := hres rfl
+    subst hres
+    simp only [nextPhase, if_true]
     refine disc_removePacked hc fun c' hc' => ?_
-    exact tail c' _ _ hc' (finDone c' hc') (fun kn' h => finNone c' kn' hc' h)
+    cases x with
+    | some w =>
+      simp only [Option.isSome_some, if_true, sRemoveR]
+      refine disc_call.mpr ⟨?_, fun ok x' hx' => ?_⟩
+      · refine ⟨rfl, _, rfl, ?_⟩
+        intro x' hx'
+        rw [hop x' (statKnow_cons hcons hx').1]
+      · have hk := statKnow_cons hcons hx'.1
+        have hok : ok = true := by
+          have h := hx'.2.2 rfl
+          rw [h, hk.2]
+          rfl
+        subst hok
+        simp only [nextPhase, hop x' hk.1, if_true]
+        exact finDone c' hc'
+    | none =>
+      simp only [Option.isSome_none, Bool.false_eq_true, if_false]
+      refine finNone c' _ hc' ?_
+      intro x' hx'
+      have := statKnow_cons hcons hx'
+      refine ⟨?_, this.1⟩
+      have h := this.2
+      cases x' with
+      | none => rfl
+      | some _ => simp at h
 
 theorem disc_rm (env : Env) (vr : Variant) (name : Ref) (old : Option (Option Val)) (c : Cache) (hc : CacheOK c) :
     Disc (.rm name old) name .outside (compile env vr (.rm name old) c) := by
@@ -1169,6 +1199,65 @@ theorem uniq_irun (env : Env) (vr : Variant) (m0 : Ref → Option Val) (ops : Li
     cases h : istep env vr ops s a with
     | none => exact ih s hinv hu
     | some s' => exact ih s' (inv_step env vr m0 ops s s' a hinv h) (uniq_step env vr m0 ops s s' a hinv hu h)
+
+/-! ### bounded exhaustive exploration (for model-checking style theorems on small scenarios) -/
+
+/-- every configuration some schedule of length ≤ n leads to -/
+def reachAll (env : Env) (vr : Variant) : Nat → Config → List Config
+  | 0, cfg => [cfg]
+  | n + 1, cfg =>
+    cfg :: (List.range cfg.actors.length).flatMap fun a =>
+      match step env vr cfg a with
+      | some (cfg', _) => reachAll env vr n cfg'
+      | none => []
+
+theorem reachAll_self (env : Env) (vr : Variant) (n : Nat) (cfg : Config) : cfg ∈ reachAll env vr n cfg := by
+  cases n <;> simp [reachAll]
+
+theorem reachAll_mono (env : Env) (vr : Variant) (n : Nat) (cfg x : Config)
+    (h : x ∈ reachAll env vr n cfg) : x ∈ reachAll env vr (n + 1) cfg := by
+  induction n generalizing cfg with
+  | zero =>
+    simp only [reachAll, List.mem_singleton] at h
+    subst h
+    exact reachAll_self env vr 1 x
+  | succ m ih =>
+    simp only [reachAll, List.mem_cons, List.mem_flatMap, List.mem_range] at h ⊢
+    rcases h with rfl | ⟨a, ha, hx⟩
+    · exact Or.inl rfl
+    · refine Or.inr ⟨a, ha, ?_⟩
+      cases hs : step env vr cfg a with
+      | none => rw [hs] at hx; simp at hx
+      | some p =>
+        rw [hs] at hx
+        simp only at hx ⊢
+        exact ih p.1 hx
+
+theorem step_lt (env : Env) (vr : Variant) (cfg cfg' : Config) (a : Actor) (c : Call)
+    (h : step env vr cfg a = some (cfg', c)) : a < cfg.actors.length := by
+  unfold step at h
+  cases hst : cfg.actors[a]? with
+  | none => simp [hst] at h
+  | some st => exact (List.getElem?_eq_some_iff.mp hst).1
+
+theorem runSched_mem_reachAll (env : Env) (vr : Variant) (sched : List Actor) (n : Nat) (cfg : Config)
+    (hlen : sched.length ≤ n) : runSched env vr cfg sched ∈ reachAll env vr n cfg := by
+  induction sched generalizing n cfg with
+  | nil => exact reachAll_self env vr n cfg
+  | cons a rest ih =>
+    cases n with
+    | zero => simp at hlen
+    | succ m =>
+      have hl : rest.length ≤ m := by simpa using hlen
+      simp only [runSched]
+      cases hs : step env vr cfg a with
+      | none => exact reachAll_mono env vr m cfg _ (ih m cfg hl)
+      | some p =>
+        obtain ⟨cfg', c⟩ := p
+        simp only [reachAll, List.mem_cons, List.mem_flatMap, List.mem_range]
+        refine Or.inr ⟨a, step_lt env vr cfg cfg' a c hs, ?_⟩
+        rw [hs]
+        exact ih m cfg' hl
 
 /-! ## Part 2 — the commit protocol over an atomic compare-and-swap register -/
 
